@@ -18,6 +18,12 @@ def run(chk):
     if chk.thorough:
         for k, edges in enumerate(rc.all_graphs(3)):
             cases.append(rc.graph_case(3, edges, rc.PROVIDERS[k % 3], k % 2 == 0))
+    for edges in [[], [(0, 1), (1, 0)], [(0, 0), (0, 1)]]:
+        for prov in ("plain_grepo", "fqn_grepo"):
+            for g in (True, False):
+                c = rc.str_case(2, edges, prov, g, "unres")
+                c["ops"] = [o for o in c["ops"] if not (o["op"] == "loadstr" and o["str"] == 0 and o["version"] == 0)] + [{"op": "loadstr", "str": 0, "version": 1}]
+                cases.append(c)
     n = 1500 if chk.thorough else 200
     for i in range(n):
         r = chk.rng.split(i)
